@@ -207,6 +207,11 @@ def run(chk: Check, tier: str):
         chk.cov["exhaustive"] = tier == "quick" and False
     finally:
         cleanup(work)
+    # isolation between the contracts (and compilation units) of one process: MainRun.tla replayed through _main - a
+    # contract's verdicts are a function of the contract alone
+    from harness import mainrun_replay
+
+    mainrun_replay.phase(chk, tier, {"verdicts", "selection", "order"}, "main-run")
     chk.cov["rule"] = (
         "all orders with repetition of <= 2 (quick: all of length 1, every writer-then-reader pair, 30 sampled others of length 2) / <= 3 (thorough) of 21 tests "
         "(writers and readers of storage, transient storage, a balance, created code, block timestamp; two tests calling the symbolic address "
